@@ -3,12 +3,14 @@
 
 `CreateEnterLeaveEvent` (mask-less write of the event after the totals interceptor) and `ResetTotals`
 (write of two zero totals under the update mask `enter_total, leave_total`).  Totals are optional
-int32: `cv++` wraps, modelled by `wrap32`.
+int32; since the fix the increment saturates at the int32 maximum (`if inc && cv < math.MaxInt32 { cv++ }`).
 -/
 namespace ScVerif.C20.EnterLeave
 
-/-- two's complement int32 -/
-def wrap32 (x : Int) : Int := (x + 2147483648) % 4294967296 - 2147483648
+def maxInt32 : Int := 2147483647
+
+/-- `if inc && cv < math.MaxInt32 { cv++ }` -/
+def bump (cv : Int) (inc : Bool) : Int := if inc ∧ cv < maxInt32 then cv + 1 else cv
 
 structure Event where
   direction : Int            -- 0 DIRECTION_UNSPECIFIED, 1 ENTER, 2 LEAVE
@@ -21,8 +23,8 @@ structure Event where
 def adjustTotal (val cur : Option Int) (inc : Bool) : Option Int :=
   let cv := cur.getD 0
   match val with
-  | some v => if v ≠ cv then some v else some (if inc then wrap32 (cv + 1) else cv)
-  | none => some (if inc then wrap32 (cv + 1) else cv)
+  | some v => if v ≠ cv then some v else some (bump cv inc)
+  | none => some (bump cv inc)
 
 inductive Field where
   | direction | occupant | enterTotal | leaveTotal
